@@ -313,3 +313,81 @@ func TestVP_C25_Handler(t *testing.T) {
 		st.Case(strings.Join(ops, "; "), nt)
 	})
 }
+
+// TestVP_C25_LastSlot concentrates on the boundary of the limit: per round the executor is
+// filled to max_sessions-free slots left = 1..2, then G goroutines released together each ask
+// for one session (AcquireSession, the gate both session constructors pass through, or
+// NewSession itself). The grants of a round never exceed the free slots and the executor's
+// own count never exceeds the limit.
+func TestVP_C25_LastSlot(t *testing.T) {
+	st := vp.NewStats("C25", "lastslot", "per case 100-400 rounds on one executor (max_sessions 1-4): all but 1-2 slots taken, then 3-16 goroutines released by a spin barrier each request one session through AcquireSession or NewSession; grants per round <= free slots and ActiveSessions() <= max_sessions; non-trivial = more requesters than free slots (always)")
+	defer st.Flush()
+	rapid.Check(t, func(t *rapid.T) {
+		max := rapid.IntRange(1, 4).Draw(t, "max")
+		free := rapid.IntRange(1, vpMinC25(2, max)).Draw(t, "free")
+		g := rapid.IntRange(free+2, 16).Draw(t, "goroutines")
+		rounds := rapid.IntRange(100, 400).Draw(t, "rounds")
+		viaNew := rapid.IntRange(0, 3).Draw(t, "viaNewSession") == 0
+		if viaNew {
+			rounds /= 4
+		}
+		e := shell.NewExecutor(shell.Config{Enabled: true, Whitelist: []string{"true"}, MaxSessions: max})
+		for i := 0; i < max-free; i++ {
+			if err := e.AcquireSession(); err != nil {
+				t.Fatalf("harness: could not pre-fill: %v", err)
+			}
+		}
+		for r := 0; r < rounds; r++ {
+			var ready, granted atomic.Int64
+			var peak atomic.Int64
+			var wg sync.WaitGroup
+			var sessMu sync.Mutex
+			var sess []*shell.Session
+			for i := 0; i < g; i++ {
+				wg.Add(1)
+				go func() {
+					defer wg.Done()
+					ready.Add(1)
+					for ready.Load() < int64(g) {
+					}
+					var err error
+					if viaNew {
+						var s *shell.Session
+						s, err = e.NewSession(context.Background(), &shell.ShellMeta{Command: "true"})
+						if err == nil {
+							sessMu.Lock()
+							sess = append(sess, s)
+							sessMu.Unlock()
+						}
+					} else {
+						err = e.AcquireSession()
+					}
+					if err == nil {
+						granted.Add(1)
+					}
+					if n := int64(e.ActiveSessions()); n > peak.Load() {
+						peak.Store(n)
+					}
+				}()
+			}
+			wg.Wait()
+			if granted.Load() > int64(free) || peak.Load() > int64(max) || e.ActiveSessions() > max {
+				t.Fatalf("VPFAIL C25 max_sessions=%d with %d slots free: %d of %d concurrent requests were granted a session (round %d; the executor counted up to %d, now %d)", max, free, granted.Load(), g, r+1, peak.Load(), e.ActiveSessions())
+			}
+			for _, s := range sess {
+				vpC25Discard(s)
+			}
+			for i := int64(0); i < granted.Load(); i++ {
+				e.ReleaseSession()
+			}
+		}
+		st.Case(fmt.Sprintf("max=%d free=%d g=%d rounds=%d viaNewSession=%v", max, free, g, rounds, viaNew), true, fmt.Sprintf("viaNewSession-%v", viaNew))
+	})
+}
+
+func vpMinC25(a, b int) int {
+	if a < b {
+		return a
+	}
+	return b
+}
